@@ -94,8 +94,14 @@ class Comparisons(Contract):
                 if tier == 'quick' and (i + j) % 3:
                     continue
                 yield dict(x=list(x), y=list(y), shape=[] if (i + j) % 2 else [2], other='fxp')
+                # integer-typed operands (vdtype int arises for objects built from ints with n_frac <= 0)
+                if x[2] <= 0 or y[2] <= 0:
+                    yield dict(x=list(x), y=list(y), shape=[2] if (i + j) % 2 else [], other='fxp', xint=x[2] <= 0, yint=y[2] <= 0)
             yield dict(x=list(x), y=None, shape=[], other='float')
             yield dict(x=list(x), y=None, shape=[2], other='int')
+            if x[2] <= 0:
+                yield dict(x=list(x), y=None, shape=[2], other='float', xint=True)
+                yield dict(x=list(x), y=None, shape=[], other='int', xint=True)
 
     def inputs(self, cfg, D):
         s, n, f = cfg['x']
@@ -111,10 +117,10 @@ class Comparisons(Contract):
 
     def run(self, cfg, P, inp):
         s, n, f = cfg['x']
-        x = make_fxp(P, s, n, f, codes=inp['cx'], shape=tuple(cfg['shape']), vdtype=float)
+        x = make_fxp(P, s, n, f, codes=inp['cx'], shape=tuple(cfg['shape']), vdtype=int if cfg.get('xint') else float)
         if cfg['other'] == 'fxp':
             s2, n2, f2 = cfg['y']
-            y = make_fxp(P, s2, n2, f2, codes=inp['cy'], shape=tuple(cfg['shape']), vdtype=float)
+            y = make_fxp(P, s2, n2, f2, codes=inp['cy'], shape=tuple(cfg['shape']), vdtype=int if cfg.get('yint') else float)
         else:
             y = inp['num']
         return {'lt': x < y, 'le': x <= y, 'eq': x == y, 'ne': x != y, 'gt': x > y, 'ge': x >= y}
